@@ -1047,6 +1047,10 @@ def _expr_failures(op, tab, batches, tr):
                                                      k + 1, show(pb))
         if perr is not None and err is not None:
             st['both_raised'] += 1
+            # the batch is outside the domain of the expression (pandas rejects it too).  What a pipeline does after
+            # one of its operand branches has raised (the zip behind a binary operation has already buffered the
+            # other operand) is C16's subject, not C06's: later batches of this run are not compared.
+            break
         elif err is not None:
             fails.append(('exception', '%s: streamz raised %r, pandas gives %s' % (head, err, show(exp))))
         elif perr is not None:
